@@ -83,4 +83,5 @@ class Function:
         return self._subroutine_caller_blocks[subroutine]
 
     def return_point_blocks(self, subroutine: "Subroutine") -> List["BasicBlock"]:
-        return self._subroutine_return_point_blocks[subroutine]
+        # a retsub executed in the main program (outside any subroutine) has no return point.
+        return self._subroutine_return_point_blocks.get(subroutine, [])
